@@ -1,0 +1,12 @@
+//go:build verif
+
+package res
+
+// Exports of unexported pure helpers for the /verif correspondence harness.
+// Compiled only with -tags verif.
+
+// VerifIsValidPart exposes isValidPart.
+func VerifIsValidPart(s string) bool { return isValidPart(s) }
+
+// VerifIsValidPath exposes isValidPath.
+func VerifIsValidPath(s string) bool { return isValidPath(s) }
